@@ -26,7 +26,7 @@ ANCHORS = [
     "acnportal.acnsim.simulator:_increase_width",
     "acnportal.acnsim.network.charging_network:ChargingNetwork.update_pilots",
 ]
-REQUIRED = ["runs_judged", "schedules_submitted", "empty_schedules", "schedules_beyond_horizon", "schedule_in_last_period_beyond_horizon",
+REQUIRED = ["finished_simulations_continued_with_a_later_event", "runs_judged", "schedules_submitted", "empty_schedules", "schedules_beyond_horizon", "schedule_in_last_period_beyond_horizon",
             "set_pilot_calls_checked", "held_pilots_checked", "runs_with_negative_pilots_cancelling_across_stations", "plans_of_thousands_of_periods", "feasibility_queries_on_candidates_before_submitting", "schedules_resubmitting_views_of_the_pilot_matrix", "runs_with_one_mapping_object_overwritten_in_place", "twin_runs", "malformed_unknown_station_rejected", "malformed_unequal_rejected", "resumed_after_rejection",
             "probe_ev_cells_checked", "regime:mr-None", "regime:mr-1", "regime:mr-k"]
 BUDGET_S = {"quick": 240, "thorough": 3000}
@@ -89,7 +89,7 @@ def cases(seed, tier):
         if rng.random() < 0.25:
             last = max(s["departure"] for s in d["sessions"])
             mal = {"at": rng.randint(0, last), "kind": rng.choice(["unknown_station", "unequal"])}
-        out.append({"desc": d, "malform": mal})
+        out.append({"desc": d, "malform": mal, "continue_after": rng.choice([2, 3, 5, 9]) if (mal is None and rng.random() < 0.2) else None})
     return out
 
 
@@ -132,7 +132,7 @@ def _overlay(ids, subs, width):
     return M
 
 
-def _run(d, mal, typed):
+def _run(d, mal, typed, cont=0):
     box = {}
     sch = _make_scheduler(d, mal, typed, box)
     sim, evs = build.build_sim(d, scheduler=sch, store_schedule_history=mal is not None)
@@ -158,6 +158,15 @@ def _run(d, mal, typed):
     probe.attach()
     try:
         probe.run()
+        if cont and probe.exception is None and box.get("snap") is None:
+            # the finished simulation is continued: a later event is added to its (empty) queue and run() is called again; the
+            # periods in between are simulated like any others (a standing plan keeps being applied, then zeros)
+            from acnportal.acnsim.events import RecomputeEvent
+            box["continued_from"] = sim.iteration
+            sim.event_queue.add_event(RecomputeEvent(sim.iteration + cont))
+            probe.step_limit += cont + 3
+            probe.run()
+            box["continued_to"] = sim.iteration
     finally:
         PLOG["cur"] = PLOG["sim"] = None
         probe.detach()
@@ -168,7 +177,13 @@ def _run(d, mal, typed):
 def run_case(case, obs):
     from acnportal.acnsim.interface import InvalidScheduleError
     d, mal = case["desc"], case.get("malform")
-    sim, evs, probe, sch, plog, box = _run(d, mal, True)
+    cont = case.get("continue_after") or 0
+    sim, evs, probe, sch, plog, box = _run(d, mal, True, cont=cont)
+    if box.get("continued_to") is not None:
+        obs.ev("finished_simulations_continued_with_a_later_event")
+        if box["continued_to"] != box["continued_from"] + cont + 1 and probe.exception is None:
+            obs.violate("continued_run_wrong_end", f"run finished at period {box['continued_from']}, an event was added at {box['continued_from'] + cont} and "
+                        f"run() called again: iteration {box['continued_to']}", scenario=d)
     if d.get("v2g"):
         obs.ev("runs_with_negative_pilots_cancelling_across_stations")
     if case.get("long_plan"):
@@ -275,6 +290,12 @@ def run_case(case, obs):
                 break
         if bad:
             break
+    # ---- every period up to the end of the run was simulated: pilots applied, end-of-period hook run, once
+    held_t = [t for t, _ in box.get("held", [])]
+    if box.get("snap") is None and held_t != list(range(T)):
+        miss = sorted(set(range(T)) - set(held_t))[:6]
+        obs.violate("period_not_simulated", f"periods {miss} of {T} were never simulated (no pilots applied, no end-of-period step); "
+                    f"periods seen: {held_t[:4]}..{held_t[-3:]}", continued_from=box.get("continued_from"), **wit)
     # ---- the pilot each EVSE holds at the end of every period (vacant stations included) equals the model
     for t, pilots in box.get("held", []):
         if t >= Mp.shape[1]:
@@ -302,7 +323,7 @@ def run_case(case, obs):
     obs.ev("infeasible_schedule_warnings", nwarn)
     # ---- twin run: plain floats, sorted mapping order -> identical outputs
     if box.get("snap") is None:
-        sim2, evs2, probe2, sch2, plog2, _ = _run(d, None, False)
+        sim2, evs2, probe2, sch2, plog2, _ = _run(d, None, False, cont=cont)
         obs.ev("twin_runs")
         if probe2.exception is not None or sim2.pilot_signals.shape != sim.pilot_signals.shape or \
                 not np.array_equal(sim2.pilot_signals, sim.pilot_signals) or not np.array_equal(sim2.charging_rates, sim.charging_rates):
